@@ -294,6 +294,7 @@ func (x *hk) Observe() *seqmc.Fail {
 func main() {
 	ev.GuardFor("C07")
 	r := ev.Start("C07")
+	defer r.FinishOnPanic()
 	n := ev.Pick(r, 5, 7)
 	initLen := ev.Pick(r, 3, 4)
 	var inits [][]int
